@@ -133,7 +133,28 @@ pub fn worker_main(
     nparts: usize,
     out: &Path,
 ) -> i32 {
-    let plan = engine.plan(prop, tier);
+    // The coordinator hands every worker its share of the plan as a file (a large plan is built
+    // once, not once per worker process); without such a file the plan is computed here.
+    let share_path = out.with_extension("cases.jsonl");
+    let meta_path = out.with_file_name("plan.meta.json");
+    let mut plan = match (std::fs::read_to_string(&share_path), std::fs::read(&meta_path).ok().and_then(|d| serde_json::from_slice::<Value>(&d).ok())) {
+        (Ok(text), Some(meta)) => {
+            let mut p = Plan::new(vec![], "");
+            p.budget_s = meta["budget_s"].as_u64().unwrap_or(p.budget_s);
+            p.isolate = meta["isolate"].as_bool().unwrap_or(false);
+            p.case_timeout_s = meta["case_timeout_s"].as_u64().unwrap_or(p.case_timeout_s);
+            p.timeout_is_violation = meta["timeout_is_violation"].as_bool().unwrap_or(false);
+            p.cases = text.lines().filter(|l| !l.is_empty()).map(|l| serde_json::from_str(l).expect("case line")).collect();
+            p
+        }
+        _ => {
+            let mut p = engine.plan(prop, tier);
+            let mine: Vec<Value> = p.cases.drain(..).enumerate().filter(|(i, _)| i % nparts == part).map(|(_, c)| c).collect();
+            p.cases = mine;
+            p
+        }
+    };
+    let my_cases: Vec<Value> = std::mem::take(&mut plan.cases);
     let t0 = Instant::now();
     let deadline = t0 + Duration::from_secs(plan.budget_s);
     let mut evaluations = 0u64;
@@ -148,13 +169,7 @@ pub fn worker_main(
     let mut cur_bound: Option<u64> = None;
     let mut skipped = 0u64;
     let mut timed_out = false;
-    let mine: Vec<&Value> = plan
-        .cases
-        .iter()
-        .enumerate()
-        .filter(|(i, _)| i % nparts == part)
-        .map(|(_, c)| c)
-        .collect();
+    let mine: Vec<&Value> = my_cases.iter().collect();
     // Cases (positions in this part's list) that killed an earlier incarnation of this worker:
     // they are run in a child process, which turns "the process died" into a verdict.
     let isolate_positions: BTreeSet<usize> = std::env::var("MC_ISOLATE_POSITIONS")
@@ -507,9 +522,10 @@ pub fn check_main(make: &dyn Fn(&str) -> Option<Box<dyn Engine>>, prop: &str, ti
         eprintln!("MACHINERY: no engine for property {prop}");
         return 2;
     };
-    let plan = engine.plan(prop, tier);
+    let mut plan = engine.plan(prop, tier);
     drop(engine);
     let total = plan.cases.len();
+    let max_bound = plan.cases.iter().map(|c| c["bound"].as_u64().unwrap_or(0)).max().unwrap_or(0);
     if total == 0 {
         eprintln!("MACHINERY: empty plan for {prop}/{tier}");
         return 2;
@@ -527,6 +543,22 @@ pub fn check_main(make: &dyn Fn(&str) -> Option<Box<dyn Engine>>, prop: &str, ti
     let outdir = vdir.join("out").join(format!("{prop}.{tier}"));
     let _ = std::fs::remove_dir_all(&outdir);
     std::fs::create_dir_all(&outdir).unwrap();
+    {
+        use std::io::Write as _;
+        let meta = json!({"budget_s": plan.budget_s, "isolate": plan.isolate, "case_timeout_s": plan.case_timeout_s, "timeout_is_violation": plan.timeout_is_violation});
+        std::fs::write(outdir.join("plan.meta.json"), serde_json::to_vec(&meta).unwrap()).unwrap();
+        let mut files: Vec<std::io::BufWriter<std::fs::File>> = (0..nparts)
+            .map(|part| std::io::BufWriter::new(std::fs::File::create(outdir.join(format!("part{part}.cases.jsonl"))).unwrap()))
+            .collect();
+        for (i, c) in plan.cases.iter().enumerate() {
+            writeln!(files[i % nparts], "{}", c).unwrap();
+        }
+        for f in files.iter_mut() {
+            f.flush().unwrap();
+        }
+        // the workers have their shares: free the plan
+        plan.cases = Vec::new();
+    }
     let exe = std::env::current_exe().unwrap();
     let spawn_worker = |part: usize, isolate: &BTreeSet<usize>, start_pos: usize| {
         let out = outdir.join(format!("part{part}.json"));
@@ -651,7 +683,6 @@ pub fn check_main(make: &dyn Fn(&str) -> Option<Box<dyn Engine>>, prop: &str, ti
             partial_bounds.push(cb);
         }
     }
-    let max_bound = plan.cases.iter().map(|c| c["bound"].as_u64().unwrap_or(0)).max().unwrap_or(0);
     if partial_bounds.is_empty() {
         completed_bound = Some(max_bound);
     } else if partial_bounds.iter().all(|b| b.is_some()) {
